@@ -8,6 +8,10 @@ fn main() {
         eprintln!("usage: vcheck <PROPERTY> [--tier quick|thorough] [--seed N] [--lane NAME] [--scale F] [--threads N] [--replay FILE]");
         std::process::exit(3);
     }
+    if args[1] == "--noop" {
+        println!("vcheck --noop");
+        return;
+    }
     let prop = args[1].clone();
     let mut tier = Tier::Quick;
     let mut seed: u64 = 1;
@@ -15,6 +19,7 @@ fn main() {
     let mut scale = 1.0f64;
     let mut threads = std::thread::available_parallelism().map(|n| n.get()).unwrap_or(4);
     let mut replay: Option<String> = None;
+    let mut shard: (u64, u64) = (0, 1);
     let mut i = 2;
     while i < args.len() {
         let a = args[i].as_str();
@@ -26,6 +31,10 @@ fn main() {
             "--scale" => scale = v.parse().unwrap_or(1.0),
             "--threads" => threads = v.parse().unwrap_or(threads),
             "--replay" => replay = Some(v),
+            "--shard" => {
+                let mut it = v.split('/');
+                shard = (it.next().unwrap_or("0").parse().unwrap_or(0), it.next().unwrap_or("1").parse().unwrap_or(1));
+            }
             _ => {
                 eprintln!("unknown argument {}", a);
                 std::process::exit(3);
@@ -35,6 +44,7 @@ fn main() {
     }
     install_panic_hook();
     let mut ctx = Ctx::new(&prop, tier, seed, &lane, scale, threads);
+    ctx.shard = shard;
     if let Some(path) = replay {
         let txt = std::fs::read_to_string(&path).unwrap_or_else(|e| {
             eprintln!("cannot read replay file {}: {}", path, e);
